@@ -1,7 +1,7 @@
 (* Props/C17.v -- C17: the predefined trees equal their mathematical definitions.  Property theorems only.
    All statements hold for every dimension n, every row/class index below n, every parameter value and every input x
    of length n; breakpoints and ties are ordinary inputs.  `on_row h i x` replaces component i of x by h(x_i). *)
-From AT Require Import Num Vec Aff PTree Schema SchemaProofs SchemaSpec.
+From AT Require Import Num Vec Aff PTree Schema SchemaProofs SchemaSpec ArgmaxLoop.
 
 (* the activation functions change exactly the named component ... *)
 Theorem C17_others_untouched : forall h i x k, k <> i -> nth k (on_row h i x) 0 = nth k x 0.
@@ -56,6 +56,10 @@ Proof. exact eval_argmax. Qed.
 Theorem C17_argmax_def : forall n x, (2 <= n)%nat -> length x = n ->
   eval (argmax n) x = Some [qnat (argmax_def x)].
 Proof. exact eval_argmax_def. Qed.
+(* the stack loop of schema::argmax as coded (ArgmaxLoop.v) terminates without a failing add_child_node and builds
+   exactly that tree, for every dim >= 2 *)
+Theorem C17_argmax_loop : forall n, (2 <= n)%nat -> exists fuel B, argmax_loop n fuel = Some B /\ to_ptree B = argmax n.
+Proof. exact argmax_loop_correct. Qed.
 Theorem C17_first_max_unique : forall x r r', is_first_max x r -> is_first_max x r' -> r = r'.
 Proof. exact is_first_max_unique. Qed.
 
@@ -170,7 +174,8 @@ Example C17_nonvacuous :
   eval (slice_tree [None; Some 1] (partial_relu 2 0)) [- (1)] = Some [0; 1] /\
   eval (slice_tree [Some (- (1)); Some 1] (partial_relu 2 0)) [] = Some [0; 1] /\
   eval (htree 2 1 (hard_shrink_h 1)) [1 + 1; 1] = Some [1 + 1; 0] /\
-  eval (argmax_spec 3) [1; 1 + 1; 1 + 1] = Some [qnat 1].
+  eval (argmax_spec 3) [1; 1 + 1; 1 + 1] = Some [qnat 1] /\
+  option_map to_ptree (argmax_loop 4 7) = Some (argmax 4) /\ argmax_loop 4 6 = None.
 Proof. repeat split; vm_compute; reflexivity. Qed.
 
 Print Assumptions C17_others_untouched.
@@ -220,3 +225,4 @@ Print Assumptions C17_textbook_slice.
 Print Assumptions C17_sixth_f64_nearest.
 Print Assumptions C17_hard_sigmoid_slope_error.
 Print Assumptions C17_slice_pipeline.
+Print Assumptions C17_argmax_loop.
